@@ -189,6 +189,31 @@ def clampVal (lb ub : Option Val) (x : Val) : Val :=
 def clampVec (lbs ubs : List (Option Val)) (x : List Val) : List Val :=
   (List.range x.length).map fun i => clampVal (lbs.getD i none) (ubs.getD i none) (x.getD i 0)
 
+/-! ## `mip:round`: the post-processing of the postsolved primal vector in `StdBackend::ReportSolution2AMPL` -/
+
+/-- `std::round`: to the nearest integer, halfway cases away from zero -/
+def roundHalfAway (x : Val) : Val :=
+  if 0 ≤ x then (((x + 1/2).floor : Int) : Val) else -((((-x) + 1/2).floor : Int) : Val)
+
+/-- `std::fabs` -/
+def absVal (x : Val) : Val := if x < 0 then -x else x
+
+/-- `DoRound`: values are changed only when bit 1 of the option is set -/
+def roundAssign (r : Int) : Bool := decide (r % 2 ≠ 0)
+
+def roundElem (fAssign isInt : Bool) (x : Val) : Val := if isInt = true ∧ fAssign = true then roundHalfAway x else x
+
+/-- the primal vector written to the .sol file: `x` = the postsolved solver values, `isInt` = integrality of the original variables,
+    `r` = option `mip:round`, `solved` = `IsProblemSolvedOrFeasible()` -/
+def roundStep (r : Int) (isMIP solved : Bool) (isInt : List Bool) (x : List Val) : List Val :=
+  if r ≠ 0 ∧ isMIP = true ∧ solved = true then
+    (List.range x.length).map (fun j => if j < isInt.length then roundElem (roundAssign r) (isInt.getD j false) (x.getD j 0) else x.getD j 0)
+  else x
+
+/-- number of integer variables the message reports -/
+def roundCount (isInt : List Bool) (x : List Val) : Nat :=
+  ((List.range (min isInt.length x.length)).filter (fun j => isInt.getD j false && decide (x.getD j 0 ≠ roundHalfAway (x.getD j 0)))).length
+
 /-! ## decidable well-formedness of a real graph -/
 
 /-- cells written by an entry in a postsolve run (its source side) -/
